@@ -113,6 +113,7 @@ def add_entry(L, rng, workdirs, a, tag, used, kinds=None, spellings=None,
     rel = d + '/' + name
     target = None
     tgt_rel = None
+    lexdir = None
     if kind in ('link_file', 'link_dir', 'link_link'):
         tv = rng.choice(vols)
         tdir = workdirs[tv]
@@ -162,6 +163,7 @@ def add_entry(L, rng, workdirs, a, tag, used, kinds=None, spellings=None,
             L.add(gen.entry_nodes(rng, ld + '/' + name, 'file', tag + 'decoy'))
             used.add((ld, name))
         spelling = os.path.relpath('/' + ld, '/' + cwd) + '/lnk%d/../' % a + name
+        lexdir = ld
     elif sp == 'trail1':
         spelling = relfrom + '/'
     elif sp == 'trail2':
@@ -178,8 +180,32 @@ def add_entry(L, rng, workdirs, a, tag, used, kinds=None, spellings=None,
         spelling = os.path.relpath('/' + workdirs[lv], '/' + cwd) + '/pl%d/' % a + name
     if spelling.startswith('@') and sp not in ('abs', 'abs_trail'):
         spelling = './' + spelling      # '@' is the harness's root placeholder
-    return {'spelling': spelling, 'class': sp, 'kind': kind, 'rel': rel,
-            'target': tgt_rel}
+    out = {'spelling': spelling, 'class': sp, 'kind': kind, 'rel': rel,
+           'target': tgt_rel}
+    if lexdir:
+        out['lexdir'] = lexdir
+    return out
+
+
+def add_companion(L, rng, arg, a, tag, used):
+    """another argument for the same command line, living in the directory
+    that the LEXICAL reading of arg's spelling ('ld/lnk/../x' -> 'ld/x')
+    names: nothing remembered from one argument may leak into the other"""
+    ld = arg['lexdir']
+    name = 'comp%d' % a
+    if (ld, name) in used:
+        return None
+    used.add((ld, name))
+    kind = rng.choice(['file', 'link_dangling', 'tree'])
+    rel = ld + '/' + name
+    L.add(gen.entry_nodes(rng, rel, kind, tag + 'comp'))
+    dfrom = os.path.relpath('/' + ld, '/' + L.cwd)
+    spelling = name if dfrom == '.' else rng.choice([dfrom + '/' + name,
+                                                     './' + dfrom + '/' + name])
+    if dfrom == '.' and rng.random() < 0.5:
+        spelling = './' + name
+    return {'spelling': spelling, 'class': 'companion', 'kind': kind,
+            'rel': rel, 'target': None}
 
 
 def pick_options(L, rng, workdirs, args, index, allowed=None):
@@ -372,6 +398,14 @@ def gen_case(rng, index, tier):
             if sp.startswith('-') and rng.random() < 0.7:
                 arg['spelling'] = './' + sp
             args.append(arg)
+    # an argument reached through 'link/..' gets a companion in the directory
+    # its lexical reading names (before or after it)
+    for arg in list(args):
+        if arg.get('lexdir') and rng.random() < 0.6:
+            comp = add_companion(L, rng, arg, len(args), 'c%d' % index, used)
+            if comp:
+                i = args.index(arg)
+                args.insert(i + rng.choice([0, 1]), comp)
     # sometimes a nonexistent argument too
     if rng.random() < 0.2:
         args.insert(rng.randrange(len(args) + 1),
@@ -523,6 +557,17 @@ def mechanism(state, a, reported, r, o=None, case=None):
         # cross-device copy by shutil.move: os.symlink + os.unlink, the
         # link's own mtime is not carried over
         return 'fallback-copy-loses-symlink-mtime'
+    if state in ('DUPLICATED', 'ALTERED', 'LOST') and reported and r.exit != 0 \
+            and case and fallback_on(case) and o and o.get('P') and \
+            any(e['op'] in ('rename', 'replace') and e.get('r') in ('V', 'E') and
+                e.get('e') == 18 for e in r.events) and \
+            any(e['op'] in ('rmdir', 'unlink', 'remove') and
+                e.get('r') in ('V', 'E') and e.get('e') == 16 for e in r.events):
+        # the F12 finding with a natural error: the entry is (or contains) a
+        # mount point, the cross-device copy succeeds, the deletion of the
+        # source stops at the busy mount point; .trashinfo withdrawn, copy
+        # left as an orphan, source partly removed, failure reported
+        return 'fallback-copy-fault-leaves-orphan-payload'
     exitc = 'exit0' if r.exit == 0 else 'exitN'
     return '%s/%s/%s%s' % (state, cls, exitc, '/reported' if reported else '')
 
